@@ -29,10 +29,10 @@ fn pick(sel: u16, len: usize) -> usize {
 }
 
 fn is_varint(k: SiteKind) -> bool {
-    matches!(k, SiteKind::ChunkSize | SiteKind::StepCode | SiteKind::SeqCount | SiteKind::StrLen | SiteKind::BytesLen | SiteKind::CtorIdx | SiteKind::DedupRef)
+    matches!(k, SiteKind::ChunkSize | SiteKind::StepCode | SiteKind::SeqCount | SiteKind::StrLen | SiteKind::BytesLen | SiteKind::CtorIdx | SiteKind::DedupRef | SiteKind::LeafVarI | SiteKind::LeafVarU)
 }
 fn is_unsigned(k: SiteKind) -> bool {
-    matches!(k, SiteKind::BytesLen | SiteKind::CtorIdx)
+    matches!(k, SiteKind::BytesLen | SiteKind::CtorIdx | SiteKind::LeafVarU)
 }
 fn is_byte(k: SiteKind) -> bool {
     matches!(k, SiteKind::Version | SiteKind::Tag | SiteKind::ItemFlag | SiteKind::Terminator | SiteKind::Position)
